@@ -1,6 +1,8 @@
 import JunoModel.Common.Proto
 import JunoModel.C17.Model
 import JunoModel.C17.ModelGlue
+import JunoModel.C17.ModelCache
+import JunoModel.C17.ModelLoop
 /-! Line-protocol driver for the C17 model (`lake build c17drv`). All numbers are hex.
 
 * `new <guard 0|1> none | new <guard> <l2> <hash> <root>`  fresh client, stored head as given → `ok`
@@ -33,6 +35,24 @@ import JunoModel.C17.ModelGlue
 * `head`                                                   → `head=<h>` (stored head, no transition)
 * `suberr` | `resub <0|1>` | `finerr`                     → `ok` (identity transitions)
 * `hist <l2> <hash> <root> <l1> <removed>` / `histclear`  provider log history for catch-up → `ok`
+* `cache <d|p|c> <init head|none> <heads set, comma separated|-> <calls per reader, comma separated|-> <token> …`
+    the recorded head under concurrent use (`Sys`, ModelCache.lean): policy d = the code as it is (no cache),
+    p = read-through memo published by a plain store, c = published by compare-and-swap; tokens `w.i` / `r<k>.i`
+    (the SetL1Head goroutine / reader k runs up to its next database operation) and `w.o` / `r<k>.o` (it performs
+    exactly that database operation)  → `db=<h> cache=<h> serve=<h> feed=<n> done=<n> got=<h,h,…|->|…`
+    or `err:no-db-op-at-token-<k>` when an `.o` token meets a goroutine that is not about to access the database
+* `loopstart` → `ok`: the state the event loop starts from is the current one (after `new` / `catchup`);
+  `lev <l2> <hash> <root> <l1> <removed>` → `ok`: next value a producer will put on `updateCh`;
+  `loop <token> …` runs `Loop.step` (ModelLoop.lean: channel, subscription bookkeeping) from that state; tokens:
+    `w<bits>` `watchL1StateUpdates`' first `subscribeToUpdates` (one bit per `WatchStateUpdate` attempt, 1 = ok;
+    no 1 = the context ended first), `p<n>` the producers put the next n values on the channel, `r<n>` the loop
+    receives n values, `e<bits>` the loop takes the subscription-error case (Unsubscribe, then the attempts),
+    `t<ans/ans/…>` the loop takes the ticker case (`x` = failed `FinalisedHeight` attempt, hex = answer; none =
+    the context ended), `c` the loop takes the `ctx.Done()` case
+      → `head=<h> notes=<h,…|-> sub=<k|none> nsubs=<n> unsub=<k,k,…|-> chan=<n> applied=<n> pushed=<n> ret=<0|1>`
+* `chunkfrom <to> <chunk>` → `<from>`: `chunkFromU64` (Go's wrapping `uint64` arithmetic, executed on `UInt64`)
+* `gethfin <h:n|n|f> …` → `calls=<n> fin=<f|none>`: `GethL1StateProvider.FinalisedHeight` answers (header n / not
+  found / failed) behind `finalisedHeight`'s retry loop
 * `catchup <latest> <fin1> <chunk|-> <failAt|none> <fin2>`  → `res=<r> q=<from-to,…|-> head=<h> note=<h>`
   where `<h>` is `none` or `l2:hash:root`.
 -/
@@ -47,6 +67,8 @@ structure DState where
   raws : List RawLog := []        -- raw L1 logs pushed through the geth layer, newest first
   sub : Subscriber := {}          -- one subscriber of the L1-head feed
   pipe : Pipe := {}               -- the hand-off chain of a live subscription
+  loopSt : State := State.init none   -- the state the event loop starts from (`loopstart`)
+  levs : List SU := []            -- values the producers will put on `updateCh`, newest first
 
 def fmtHead : Option Head → String
   | none => "none"
@@ -123,6 +145,107 @@ def pipeToks : List String → List RawLog → Option (List PipeOp × List RawLo
     let (o2, r2) ← pipeToks ts r1
     pure (o1 ++ o2, r2)
 
+def head? (x : String) : Option (Option Head) :=
+  if x == "none" then some none else
+  match x.splitOn ":" with
+  | [a, b, c] => do
+    let a ← hexToNat? a
+    let b ← hexToNat? b
+    let c ← hexToNat? c
+    pure (some ⟨a, b, c⟩)
+  | _ => none
+
+def heads? (x : String) : Option (List Head) :=
+  if x == "-" then some [] else
+  (x.splitOn ",").foldr (fun t acc => do
+    let r ← acc
+    match head? t with
+    | some (some h) => pure (h :: r)
+    | _ => none) (some [])
+
+def nats? (x : String) : Option (List Nat) :=
+  if x == "-" then some [] else
+  (x.splitOn ",").foldr (fun t acc => do
+    let r ← acc
+    let n ← t.toNat?
+    pure (n :: r)) (some [])
+
+def seg? (tok : String) : Option Seg :=
+  match tok.splitOn "." with
+  | [who, kind] =>
+    let t? : Option (Option Nat) :=
+      if who == "w" then some none else
+      match who.toList with
+      | 'r' :: ds => (String.mk ds).toNat?.map some
+      | _ => none
+    match t?, kind with
+    | some t, "i" => some (.upto t)
+    | some t, "o" => some (.op t)
+    | _, _ => none
+  | _ => none
+
+def segs? : List String → Option (List Seg)
+  | [] => some []
+  | t :: ts => do
+    let s ← seg? t
+    let r ← segs? ts
+    pure (s :: r)
+
+/-- Runs the tokens one by one; `Except` carries the index of the first `.o` token that does not apply. -/
+def runSegs (p : CachePolicy) : Sys → Nat → List Seg → Except Nat Sys
+  | σ, _, [] => .ok σ
+  | σ, k, s :: rest =>
+    match σ.seg p s with
+    | some σ' => runSegs p σ' (k + 1) rest
+    | none => .error k
+
+def fmtGot (rs : List Reader) : String :=
+  if rs.isEmpty then "-" else
+  "|".intercalate (rs.map fun r => if r.got.isEmpty then "-" else ",".intercalate (r.got.map fmtHead))
+
+def bits? (cs : List Char) : Option (List Bool) :=
+  cs.foldr (fun c acc => do
+    let r ← acc
+    if c == '0' then pure (false :: r) else if c == '1' then pure (true :: r) else none) (some [])
+
+/-- One `loop` token: the ops it stands for (none for `w`, which starts the loop) and the values left. -/
+inductive LoopTok where
+  | start (attempts : List Bool)
+  | ops (l : List LoopOp)
+
+def loopTok (tok : String) (evs : List SU) : Option (LoopTok × List SU) :=
+  match tok.toList with
+  | 'w' :: bs => (bits? bs).map fun a => (.start a, evs)
+  | 'e' :: bs => (bits? bs).map fun a => (.ops [.subErr a], evs)
+  | ['c'] => some (.ops [.cancel], evs)
+  | 'p' :: ds =>
+    match (String.mk ds).toNat? with
+    | some n => if n ≤ evs.length then some (.ops ((evs.take n).map LoopOp.push), evs.drop n) else none
+    | none => none
+  | 'r' :: ds => (String.mk ds).toNat?.map fun n => (.ops (List.replicate n .recv), evs)
+  | 't' :: rest =>
+    let body := String.mk rest
+    let parts := if body.isEmpty then [] else body.splitOn "/"
+    (answers? parts).map fun a => (.ops [.tick a], evs)
+  | _ => none
+
+def runLoopToks (g : Bool) (st : State) : Option Loop → List String → List SU → Option Loop
+  | l, [], _ => l
+  | l, t :: ts, evs =>
+    match loopTok t evs, l with
+    | some (.start a, evs'), none => runLoopToks g st (some (Loop.start st a)) ts evs'
+    | some (.ops os, evs'), some l => runLoopToks g st (some (l.run g os)) ts evs'
+    | _, _ => none
+
+def fmtNats (l : List Nat) : String :=
+  if l.isEmpty then "-" else ",".intercalate (l.map toString)
+
+def headerAns? (x : String) : Option HeaderAns :=
+  if x == "n" then some .notFound else if x == "f" then some .failed else
+  match x.splitOn ":" with
+  | ["h", n] => (hexToNat? n).map .header
+  | _ => none
+
 def fmtRes : CatchUpResult → String
   | .complete => "complete"
   | .failed => "failed"
@@ -193,6 +316,50 @@ def dstep (s : DState) (line : String) : DState × String :=
       let n := match k with | some k => k | none => bs.length
       let tr := (match k with | some _ => [Ev.resub true] | none => []) ++ List.replicate n (Ev.resub false) ++ s.trace
       ({ s with trace := tr }, "attempt=" ++ (match k with | some k => toString k | none => "none"))
+    | none => (s, "bad-op")
+  | "cache" :: pol :: ini :: sets :: reads :: toks =>
+    let p? : Option CachePolicy :=
+      if pol == "d" then some .direct else if pol == "p" then some .publish
+      else if pol == "c" then some .publishIfEmpty else none
+    match p?, head? ini, heads? sets, nats? reads, segs? toks with
+    | some p, some db0, some sets, some reads, some segs =>
+      match runSegs p (Sys.init db0 sets reads) 0 segs with
+      | .ok σ =>
+        (s, "db=" ++ fmtHead σ.db ++ " cache=" ++ fmtHead σ.cache ++ " serve=" ++ fmtHead (σ.serve p) ++
+          " feed=" ++ toString σ.feed.length ++ " done=" ++ toString σ.writer.done.length ++
+          " got=" ++ fmtGot σ.readers)
+      | .error k => (s, "err:no-db-op-at-token-" ++ toString k)
+    | _, _, _, _, _ => (s, "bad-op")
+  | ["loopstart"] => ({ s with loopSt := s.st, levs := [] }, "ok")
+  | ["lev", a, b, c, d, e] =>
+    match su? a b c d e with
+    | some u => ({ s with levs := u :: s.levs }, "ok")
+    | none => (s, "bad-op")
+  | "loop" :: toks =>
+    match runLoopToks s.guard s.loopSt none toks s.levs.reverse with
+    | some l =>
+      (s, "head=" ++ fmtHead l.st.head ++ " notes=" ++ fmtHeads l.notes ++
+        " sub=" ++ (match l.sub with | some k => toString k | none => "none") ++
+        " nsubs=" ++ toString l.nsubs ++ " unsub=" ++ fmtNats l.unsub ++
+        " chan=" ++ toString l.chan.length ++ " applied=" ++ toString l.applied.length ++
+        " pushed=" ++ toString l.pushed.length ++ " ret=" ++ (if l.returned then "1" else "0"))
+    | none => (s, "bad-op")
+  | ["chunkfrom", to, ch] =>
+    match hexToNat? to, hexToNat? ch with
+    | some to, some ch =>
+      if to < 2 ^ 64 ∧ ch < 2 ^ 64 then
+        (s, natToHex (chunkFromU64 (UInt64.ofNat to) (UInt64.ofNat ch)).toNat)
+      else (s, "bad-op")
+    | _, _ => (s, "bad-op")
+  | "gethfin" :: xs =>
+    let as? : Option (List HeaderAns) := xs.foldr (fun x acc => do
+      let r ← acc
+      let a ← headerAns? x
+      pure (a :: r)) (some [])
+    match as? with
+    | some as =>
+      let l := finalisedHeightLoop (as.map gethFinalisedHeight)
+      (s, "calls=" ++ toString l.2 ++ " fin=" ++ (match l.1 with | some f => natToHex f | none => "none"))
     | none => (s, "bad-op")
   | ["pipenew"] => ({ s with pipe := {} }, "ok")
   | "pipe" :: toks =>
